@@ -560,12 +560,57 @@ func TestC07Byz(t *testing.T) {
 	})
 }
 
+// checkDomNumbers: a dominant-order block extends its parent in every context it is coincident with. The view the region
+// (and prime) chain accepted is copied, its number in that context is changed (+1, -1, 0, +1000), the copy is re-sealed to
+// the same order and handed to that chain's header verification, which must refuse it; the unchanged copy must pass.
+func checkDomNumbers(n *Node, bi *BlockInfo, fail func(class, witness, detail string)) {
+	for ctx := bi.Order; ctx < common.ZONE_CTX; ctx++ {
+		view := bi.Views[ctx]
+		if view == nil {
+			continue
+		}
+		hc := n.Cores[ctx].Slice().HeaderChain()
+		control, err := roundTripBlock(view, locOf(ctx))
+		if err != nil || hc.VerifyHeader(control) != nil {
+			simkit.Global.Inc("dom_number_control_refused")
+			continue
+		}
+		num := view.NumberU64(ctx)
+		for _, nn := range []uint64{num + 1, num - 1, 0, num + 1000} {
+			if nn == num {
+				continue
+			}
+			cp, err := roundTripBlock(view, locOf(ctx))
+			if err != nil {
+				return
+			}
+			cp.SetNumber(new(big.Int).SetUint64(nn), ctx)
+			cp.WorkObjectHeader().SetHeaderHash(cp.Header().Hash())
+			if err := Seal(cp, uint64(bi.Number)*7919+nn, 1<<17, func(wo *types.WorkObject) bool {
+				_, o, e := n.Zone().CalcOrder(wo)
+				return e == nil && o == bi.Order
+			}); err != nil {
+				simkit.Global.Inc("dom_number_reseal_failed")
+				continue
+			}
+			simkit.Global.Inc("fault.byz.dom-number")
+			if err := hc.VerifyHeader(cp); err == nil {
+				fail("rewrite-accepted", fmt.Sprintf("mutation=number[ctx%d] dom-header-verification", ctx), fmt.Sprintf("a copy of the order-%d block #%d whose number in context %d is %d instead of %d (parent has %d), re-sealed to the same order, passes the header verification of that context's chain", bi.Order, bi.Number, ctx, nn, num, num-1))
+				return
+			}
+		}
+	}
+}
+
 func TestC09(t *testing.T) {
 	chainProperty(t, "C09", func(r *Runner, fail func(class, witness, detail string)) Hooks {
 		props, cb := byzHooks("C09", fail)
 		return Hooks{ByzProps: props, Byz: cb, AfterHead: func(w *World, n *Node, bi *BlockInfo, reorg bool) {
 			if reorg {
 				return
+			}
+			if bi.Order < common.ZONE_CTX {
+				checkDomNumbers(n, bi, fail)
 			}
 			// entropy strictly increases along every accepted edge; recorded parent entropy == parent's accumulated entropy
 			blk := n.Zone().GetBlockByHash(bi.Hash)
@@ -906,6 +951,9 @@ func TestC04(t *testing.T) {
 				if reorg || n%6 == 0 {
 					checkEtxHistory(w, nd, bi.Hash, fail)
 				}
+				if n%5 == 2 {
+					checkEtxQueueModel(nd, bi, fail)
+				}
 			},
 			End: func(w *World) {
 				if r.Head != w.Gen {
@@ -917,6 +965,89 @@ func TestC04(t *testing.T) {
 			},
 		}
 	})
+}
+
+// checkEtxQueueModel drives the destination queue of the state under the new head (a private copy: nothing is committed)
+// against a FIFO model: batches sized so that one of them straddles the next point where the queue index grows by a byte
+// (255 -> 256), then everything is popped again. Every pushed ETX comes out exactly once, in order, and then the queue is empty.
+func checkEtxQueueModel(n *Node, bi *BlockInfo, fail func(class, witness, detail string)) {
+	hdr := n.Zone().GetHeaderByHash(bi.Hash)
+	st, err := n.Zone().StateAt(hdr.EVMRoot(), hdr.EtxSetRoot(), hdr.QuaiStateSize())
+	if err != nil {
+		return
+	}
+	oldest, err1 := st.GetOldestIndex()
+	newest, err2 := st.GetNewestIndex()
+	if err1 != nil || err2 != nil || newest.Cmp(big.NewInt(60000)) > 0 {
+		return
+	}
+	var model []common.Hash
+	for i := new(big.Int).Set(oldest); i.Cmp(newest) < 0; i.Add(i, common.Big1) {
+		e, err := st.ReadETX(i)
+		if err != nil || e == nil {
+			fail("etx-queue-model", "slot-unreadable", fmt.Sprintf("state of #%d: queue slot %v between oldest %v and newest %v cannot be read: %v", bi.Number, i, oldest, newest, err))
+			return
+		}
+		model = append(model, e.Hash())
+	}
+	seq := 0
+	mk := func() *types.Transaction {
+		seq++
+		to := qiAccounts[seq%len(qiAccounts)].Addr
+		return types.NewTx(&types.ExternalTx{OriginatingTxHash: common.BigToHash(big.NewInt(int64(seq) + int64(bi.Number)<<20)), ETXIndex: uint16(seq), Gas: 21000, To: &to, Value: big.NewInt(int64(seq)), Sender: quaiAccounts[0].Addr, EtxType: types.DefaultType})
+	}
+	push := func(k int) bool {
+		var batch []*types.Transaction
+		for i := 0; i < k; i++ {
+			e := mk()
+			batch = append(batch, e)
+			model = append(model, e.Hash())
+		}
+		if err := st.PushETXs(batch); err != nil {
+			fail("etx-queue-model", "push-error", fmt.Sprintf("PushETXs of %d: %v", k, err))
+			return false
+		}
+		return true
+	}
+	nw := int(newest.Int64())
+	sizes := []int{3, 1}
+	if nw < 250 {
+		sizes = []int{253 - nw, 7, 2} // ends at 253, then 253..259 straddles the growth of the index to two bytes
+	} else if nw < 256 {
+		sizes = []int{256 - nw + 3, 2}
+	}
+	for _, k := range sizes {
+		if !push(k) {
+			return
+		}
+	}
+	single := mk() // the one-at-a-time path
+	if err := st.PushETX(single); err != nil {
+		fail("etx-queue-model", "push-error", fmt.Sprintf("PushETX: %v", err))
+		return
+	}
+	model = append(model, single.Hash())
+	for i, want := range model {
+		got, err := st.PopETX()
+		if err != nil || got == nil {
+			o2, _ := st.GetOldestIndex()
+			n2, _ := st.GetNewestIndex()
+			fail("etx-queue-model", "etx-lost", fmt.Sprintf("state of #%d: %d ETXs were queued (index %v..), the queue reports empty after %d pops (oldest=%v newest=%v, err %v)", bi.Number, len(model), oldest, i, o2, n2, err))
+			return
+		}
+		if got.Hash() != want {
+			fail("etx-queue-model", "etx-out-of-order", fmt.Sprintf("state of #%d: pop %d returned %x, the model expects %x", bi.Number, i, got.Hash().Bytes()[:6], want.Bytes()[:6]))
+			return
+		}
+	}
+	if extra, _ := st.PopETX(); extra != nil {
+		fail("etx-queue-model", "etx-from-nothing", fmt.Sprintf("state of #%d: after popping everything that was queued the queue still returns %x", bi.Number, extra.Hash().Bytes()[:6]))
+		return
+	}
+	simkit.Global.Inc("etx_queue_models_checked")
+	if nw < 256 {
+		simkit.Global.Inc("probe.etx_queue_index_growth_straddled")
+	}
 }
 
 // forgePendingEtxs plays a peer that saw the sealed block before the node processed it and pushes a batch of
